@@ -132,11 +132,13 @@ func applySearchSingleQuery(colWips map[string]*ColWip, sQuery *structs.SearchQu
 		}
 		return false
 	case structs.SimpleExpression:
-		rawVal, ok := colWips[sQuery.QueryInfo.ColName]
-		if !ok {
-			return false
+		// a column no record of the segment had so far: the field is absent from this record, as in a
+		// record that is back-filled once the column shows up (x!=1 holds for it, x=1 does not)
+		lastRecord := sutils.VALTYPE_ENC_BACKFILL[:]
+		if rawVal, ok := colWips[sQuery.QueryInfo.ColName]; ok {
+			lastRecord = rawVal.getLastRecord()
 		}
-		retVal, err := ApplySearchToExpressionFilterSimpleCsg(sQuery.QueryInfo.QValDte, sQuery.ExpressionFilter.FilterOp, rawVal.getLastRecord(), false, holderDte, sQuery.FilterIsCaseInsensitive)
+		retVal, err := ApplySearchToExpressionFilterSimpleCsg(sQuery.QueryInfo.QValDte, sQuery.ExpressionFilter.FilterOp, lastRecord, false, holderDte, sQuery.FilterIsCaseInsensitive)
 		if err != nil {
 			segStore.StoreSegmentError("applySearchSingleQuery: failed to apply simple expression search", log.ErrorLevel, err)
 			return false
